@@ -164,12 +164,13 @@ fn ops_json(ops: &[SOp]) -> Value {
 
 /// `credit`: send credit every stream of the server starts with (GOAWAY and responses are then written in pieces, as
 /// grants arrive)
-pub fn run_server(ops: &[SOp], style: Style, sched: &[u16], credit: u64, ctx: &mut Ctx) -> Verdict {
+pub fn run_server(ops: &[SOp], style: Style, sched: &[u16], credit: u64, newest_first: bool, ctx: &mut Ctx) -> Verdict {
     ctx.eval();
     fastrand::seed(17);
     let net = Net::new();
     net.set_raw(Side::Client);
     net.lock().default_credit[Side::Server.idx()] = credit;
+    net.lock().ends[Side::Server.idx()].accept_newest_first = newest_first;
     let o: Shared<SObs> = shared(SObs::default());
     let cmds: Shared<VecDeque<usize>> = shared(VecDeque::new());
     let cmd_sig = Signal::new();
@@ -227,7 +228,7 @@ pub fn run_server(ops: &[SOp], style: Style, sched: &[u16], credit: u64, ctx: &m
     let rejected_reset: Vec<u64> = events.iter().filter_map(|(_, e)| if let NetEvent::Reset { side: Side::Server, stream, code } = e { (*code == code::REQUEST_REJECTED).then_some(*stream) } else { None }).collect();
     let closes = net.close_calls(Side::Server);
     let case = || {
-        json!({"kind": "server", "ops": ops_json(ops), "style": format!("{style:?}"), "sched": sched, "credit": if credit == UNLIMITED { -1 } else { credit as i64 }, "goaways": goaways, "accepted": obs.accepted, "taken": taken,
+        json!({"kind": "server", "ops": ops_json(ops), "style": format!("{style:?}"), "sched": sched, "credit": if credit == UNLIMITED { -1 } else { credit as i64 }, "newest_first": newest_first, "goaways": goaways, "accepted": obs.accepted, "taken": taken,
                "rejected_stop": rejected_stop, "rejected_reset": rejected_reset, "accept_end": format!("{:?}", obs.accept_end), "closes": format!("{closes:?}")})
     };
     if end == RunEnd::StepBound {
@@ -241,7 +242,12 @@ pub fn run_server(ops: &[SOp], style: Style, sched: &[u16], credit: u64, ctx: &m
         return fail("a legal history caused a connection error".into());
     }
     if !matches!(seg.end, rf::End::Boundary) {
-        return fail("server control stream does not end at a frame boundary".into());
+        // the harness drops a pending accept() whenever a shutdown command arrives; when that accept() was in the middle of
+        // writing its final GOAWAY (limited send credit), the rest of the frame stays in the transport's buffer and is never
+        // flushed because nothing writes on the control stream again. Cancelling accept() is not one of the documented call
+        // patterns and the statement says nothing about it: only complete GOAWAY frames are judged here (wire validity
+        // under the documented patterns is C14's).
+        ctx.class("accept_cancelled_inside_its_final_goaway");
     }
     for w in goaways.windows(2) {
         if w[1] > w[0] {
@@ -484,10 +490,11 @@ fn exhaustive(ctx: &mut Ctx, shard: usize, nshards: usize) -> Verdict {
             if !mine {
                 return Ok(());
             }
-            run_server(&ops, Style::Eager, &[], UNLIMITED, ctx)?;
+            run_server(&ops, Style::Eager, &[], UNLIMITED, false, ctx)?;
             let cells = prf_cells(i as u64, 100);
-            run_server(&ops, Style::Random, &cells, UNLIMITED, ctx)?;
-            run_server(&ops, Style::Random, &cells, 3, ctx)
+            run_server(&ops, Style::Random, &cells, UNLIMITED, false, ctx)?;
+            run_server(&ops, Style::Random, &cells, 3, false, ctx)?;
+            run_server(&ops, Style::Eager, &[], UNLIMITED, true, ctx)
         });
         match r {
             None => break,
@@ -544,7 +551,9 @@ fn run_tape(tape: &[u16], ctx: &mut Ctx) -> Verdict {
         _ => t.int(1, 300),
     };
     let sched: Vec<u16> = tape[t.position().min(tape.len())..].to_vec();
-    run_server(&ops, style, &sched, credit, ctx)
+    let newest_first = t.chance(1, 4);
+    let sched: Vec<u16> = tape[t.position().min(tape.len())..].to_vec();
+    run_server(&ops, style, &sched, credit, newest_first, ctx)
 }
 
 fn run_direct(d: &Value, ctx: &mut Ctx) -> Verdict {
@@ -571,7 +580,7 @@ fn run_direct(d: &Value, ctx: &mut Ctx) -> Verdict {
                         .collect()
                 })
                 .unwrap_or_default();
-            run_server(&ops, style, &sched, d["credit"].as_i64().map(|c| if c < 0 { UNLIMITED } else { c as u64 }).unwrap_or(UNLIMITED), ctx)
+            run_server(&ops, style, &sched, d["credit"].as_i64().map(|c| if c < 0 { UNLIMITED } else { c as u64 }).unwrap_or(UNLIMITED), d["newest_first"].as_bool().unwrap_or(false), ctx)
         }
         Some("client") => {
             let ids: Vec<u64> = d["ids"].as_array().map(|a| a.iter().filter_map(|x| x.as_str().and_then(|s| s.parse().ok())).collect()).unwrap_or_default();
